@@ -13,12 +13,13 @@ RULE = ('Cases: an ancestor of 1..3 contigs; substitution sites more than (k-1)/
         'ends (a share of sites at exactly the minimum distances, and contigs of exactly k or k+1 bases whose only site sits at the centre); 2..10 samples, 2..4 alleles per site; contigs written '
         'in random order and orientation per sample.  The generator checks admissibility (every canonical split k-mer over '
         'the union of all sample sequences occurs at one locus, none self-complementary).  `ska align --min-freq 1` must '
-        'give exactly the planted columns (each up to whole-column complement), equal lengths, names in input order.  '
+        'give exactly the planted columns (each up to whole-column complement), equal lengths, names in input order (sample names are drawn so that input order is usually not sorted order; 30% of the runs write with -o over an existing, longer file).  '
         'Routes: `ska build -k K` + `ska align x.skf` for all odd k, and `ska align <fastas>` (k=17), with --threads 1/2/4/8 (10 samples with > 1 thread take the parallel build path).  Non-trivial: at least '
         'one planted site; distinct = distinct (k, sample sequences).')
 ASSUMPTIONS = ['the planted truth is the oracle; no model of ska is involved',
                'uniqueness is required over the union of samples, see DESIGN.md section 8']
-REQUIRED = {t: ['route:skf', 'route:fasta', 'sites_at_min_gap', 'sites_at_min_end', 'multi_contig', 'contigs_of_length_k_or_k+1', 'parallel_build_path'] for t in ('quick', 'thorough')}
+REQUIRED = {t: ['route:skf', 'route:fasta', 'sites_at_min_gap', 'sites_at_min_end', 'multi_contig', 'contigs_of_length_k_or_k+1', 'parallel_build_path',
+                'names_not_in_sorted_order', 'output_to_existing_longer_file'] for t in ('quick', 'thorough')}
 
 
 def builds(tier):
@@ -116,17 +117,23 @@ def run_case(desc, ctx):
     contigs, ss, truth, stats = g
     ns = len(ss)
     files = []
+    # sample names whose input order is usually not their sorted order (s2, s10, b7, ...): a run that lists or
+    # stores samples in any order other than the one given pairs rows with the wrong sample
+    pool = ['%s%d' % (c, n) for c in 'sbz' for n in range(0, 31)]
+    names_exp = rng.sample(pool, ns)
+    if names_exp != sorted(names_exp):
+        res.count('names_not_in_sorted_order')
     for i, s in enumerate(ss):
         order = list(range(len(s)))
         rng.shuffle(order)
         recs = [s[j] if rng.random() < 0.5 else M.rc(s[j]) for j in order]
-        files.append(G.write_fa(ctx.path('s%d.fa' % i), recs, wrap=rng.choice([0, 0, 60])))
+        files.append(G.write_fa(ctx.path(names_exp[i] + '.fa'), recs, wrap=rng.choice([0, 0, 60])))
+    to_file = rng.random() < 0.3
     threads = rng.choice([1, 1, 2, 4, 8])
     res.see('threads', threads)
     if ns >= 10 and threads > 1:
         res.count('parallel_build_path')
     exp = sorted(M.canon_col(c) for c in truth)
-    names_exp = ['s%d' % i for i in range(ns)]
     res.count('route:' + desc['route'])
     res.see('k', k)
     res.see('nsamples', ns)
@@ -140,9 +147,11 @@ def run_case(desc, ctx):
                     continue
                 res.violate('C03:build-failed', 'k=%d: build failed: %s' % (k, p.stderr[-200:]), {'samples': ss})
                 continue
-            names, seqs, pa = G.align_output(ctx, [ctx.path('o.skf'), '--min-freq', '1'], binary=b)
+            names, seqs, pa = G.align_output(ctx, [ctx.path('o.skf'), '--min-freq', '1'], binary=b, stale_out=to_file)
         else:
-            names, seqs, pa = G.align_output(ctx, files + ['--min-freq', '1', '--threads', threads], binary=b)
+            names, seqs, pa = G.align_output(ctx, files + ['--min-freq', '1', '--threads', threads], binary=b, stale_out=to_file)
+        if to_file:
+            res.count('output_to_existing_longer_file')
         if variant == 'chk':
             res.count('chk_runs')
             if names is None and 'overflow' in pa.stderr:
